@@ -176,6 +176,7 @@ def main():
             rep.known.append('%s - listed finding no longer reproduces (%s)' % (', '.join(k.get('labels', [])), k['what']))
         rep.inconclusive += st['other']
     core.triage(rep, results, info, replayer=make_replayer(info))
+    rep.validate_translation(info)
     return rep.finish('proof', 'goto-cc | cbmc --unwind N+2 --unwinding-assertions ' + ' '.join(bc.FLAGS) + ' (explicit round-trip harness on the extracted codecs, BYTES stream model)',
                       core.TRUSTED_BASE)
 
